@@ -92,7 +92,12 @@ def evRec : Ev Float → Rec
 
 /-- base stats the harness registers for unit `t` -/
 def baseOf (t : Int) : List (Nat × Float) :=
-  [(5, 1000), (6, 0.1 * Float.ofInt t), (90, 0.1), (14, 100)]
+  [(5, 1000), (6, 0.1 * Float.ofInt t), (90, 0.1), (13, 100)]
+
+/-- `Stats.SPD`: base × (1 + percent) + (flat + converted), not below zero -/
+def spdOf (base : List (Nat × Float)) (l : List (Inst Float)) : Float :=
+  let v := propTotal base l 13 * (1 + propTotal base l 14) + (propTotal base l 15 + propTotal base l 16)
+  if v < 0 then 0 else v
 
 def listRec (s : St Float) (t : Int) : Rec :=
   let l := s.targets t
@@ -108,7 +113,7 @@ def listRec (s : St Float) (t : Int) : Rec :=
     |>.addS "p2" (",".intercalate (l.map fun i => if i.canTickP2 then "1" else "0"))
     |>.addS "stats" (";".intercalate (l.map fun i => if (statsStr i.stats) == "" then "-" else statsStr i.stats))
     |>.addF "atkpct" atkpct |>.addF "reduce" (propTotal (baseOf t) l 90)
-    |>.addF "atk" (if out < 0 then 0 else out) |>.addF "cc" (propTotal (baseOf t) l 17)
+    |>.addF "atk" (if out < 0 then 0 else out) |>.addF "spd" (spdOf (baseOf t) l) |>.addF "cc" (propTotal (baseOf t) l 17)
     |>.addS "weaks" (";".intercalate (l.map fun i => weakStr i.weak))
     |>.addIs "weak" (((List.range 8).filter fun d => d ≥ 1 && weakTo (baseWeak t) l d).map Int.ofNat)
 
